@@ -88,7 +88,10 @@ def run(ctx):
     cfgs = [dict(ci=0, dot=0, gs=1, gl=0, mb=0), dict(ci=0, dot=1, gs=1, gl=0, mb=0), dict(ci=0, dot=0, gs=0, gl=0, mb=0),
             dict(ci=0, dot=0, gs=1, gl=0, mb=1), dict(ci=1, dot=1, gs=1, gl=1, mb=0)]
     ev, nt, mism = corr.search_pden(pps, cfgs, maxlen=5)
-    mism = dmism + mism
+    # the same names with a final line feed: it belongs to the last segment like any other character
+    ev3, nt3, mism3 = corr.search_pden(pps[:: 3 if ctx.quick else 1], [cfgs[0], cfgs[2], cfgs[3]], maxlen=4, nl_suffix=True)
+    ev, nt = ev + ev3, nt + nt3
+    mism = dmism + mism + mism3
     # hidden segments without DOTGLOB belong to C03
     mism = [m for m in mism if m['name'] is None or m['cfg']['dot'] or not has_hidden_segment(m['name'])]
     # `.`/`..` segments under DOTGLOB belong to C03 as well
